@@ -22,6 +22,7 @@ structure Case where
   rate : Int := 0
   fmt : Int := 0
   pre : Array (Array Int) := Array.replicate 200 #[]
+  smixArgs : Int × Int := (0, 0)
   patrows : Array Int := #[]
   scan0num : Int := 0
   active : Bool := false
@@ -57,6 +58,8 @@ def runOp (c : Case) : Option Ctx :=
   | "end" => some (endPlayer s)
   | "release" => some (release s)
   | "load" => some (load X s)
+  | "endsmix" => some (endSmix s)
+  | "startsmix" => some (startSmix c.smixArgs.1 c.smixArgs.2 (fun _ => unk) s)
   | _ => none
 
 def showVal (v : Int) : String := if v == unk then "?" else toString v
@@ -89,6 +92,7 @@ partial def loop (h : IO.FS.Stream) (c : Case) : IO Unit := do
     | none => loop h c
   | "ext" :: "patrows" :: vals => loop h { c with patrows := (vals.map (fun v => v.toInt?.getD 0)).toArray }
   | ["ext", "scan0num", v] => loop h { c with scan0num := v.toInt?.getD 0 }
+  | ["ext", "smixargs", a, b] => loop h { c with smixArgs := (a.toInt?.getD 0, b.toInt?.getD 0) }
   | "post" :: _ =>
     if c.active && !c.emitted then
       emit c
